@@ -33,9 +33,13 @@ open DnsVerif DnsVerif.Cache
 
 /-! ### the key -/
 
-/-- The format literal of the `cacheKey =` assignment in `ServeDNSWithRCODE`, re-extracted from the
-source on every run, is the one the model transcribes. -/
-theorem cache_key_format_matches : Generated.dnsserver_cacheKeyFormat = cacheKeyFormat := by decide
+/-- The format literal of the one `fmt.Sprintf` over a location id in package `dnsserver`,
+re-extracted from the source on every run, is the one the model transcribes. The fact is `none` when
+the key is no longer built by such a call (the extractor says so in the evidence); the tie is then
+the behavioural one alone: the key strings held by the real cache after every `hist`/`race`
+schedule are compared with the model's (`keys=` in the op output). -/
+theorem cache_key_format_matches :
+    (Generated.dnsserver_cacheKeyFormat.all (· == cacheKeyFormat)) = true := by decide
 
 theorem model_key_format : cacheKeyFormat = "%.3d/%d/%d/%s" := rfl
 
